@@ -690,6 +690,102 @@ theorem restructFind_spec (l : List Part) (A B : Part) (m : Expr) (h : restructF
           · exact rec_case h
       · exact rec_case h
 
+/-- one merge step of `restruct`: everything the later proofs need to know about the new table -/
+theorem restruct_step (n : Nat) (ps : List Part) (alo ahi blo bhi : Nat) (a b m : Expr)
+    (hd : Disj n ps) (hw : ∀ p ∈ ps, WF p.2.2)
+    (hf : restructFind (sortParts ps) = some ((alo, ahi, a), (blo, bhi, b), m)) :
+    let ps3 := popKey blo bhi (popKey alo ahi (assignKey alo bhi m ps))
+    Disj n ps3 ∧ (∀ p ∈ ps3, WF p.2.2) ∧ (∀ x, cnt x ps3 = cnt x ps) ∧
+      (∀ p ∈ ps3, p ∈ ps ∨ p = (alo, bhi, m)) ∧ ps3.length + 1 = ps.length ∧
+      (alo, ahi, a) ∈ ps ∧ (blo, bhi, b) ∈ ps ∧ ahi = blo ∧ alo < ahi ∧ blo < bhi ∧
+      assignKey alo bhi m ps = ps ++ [(alo, bhi, m)] ∧
+      findKey alo ahi (ps ++ [(alo, bhi, m)]) = some a ∧
+      findKey blo bhi (popKey alo ahi (ps ++ [(alo, bhi, m)])) = some b ∧
+      findKey alo ahi ps = some a ∧ findKey blo bhi (popKey alo ahi ps) = some b := by
+  intro ps3
+  obtain ⟨hA, hB, hadj, hm⟩ := restructFind_spec _ _ _ _ hf
+  simp only at hadj hm
+  have hA' : (alo, ahi, a) ∈ ps := (perm_sortParts ps).subset hA
+  have hB' : (blo, bhi, b) ∈ ps := (perm_sortParts ps).subset hB
+  have sA := hd.1 _ hA'
+  have sB := hd.1 _ hB'
+  simp only at sA sB
+  have hmsz : m.size = bhi - alo := by
+    rcases hm with ⟨x, rfl⟩ | rfl
+    · rw [size_mkCst]; omega
+    · rfl
+  have hmwf : WF m := by
+    rcases hm with ⟨x, rfl⟩ | rfl
+    · exact WF_mkCst _ _ (by omega)
+    · simp only [mkTop, WF]; omega
+  have hnew : findKey alo bhi ps = none := by
+    cases hk : findKey alo bhi ps with
+    | none => rfl
+    | some e' =>
+      have hm' := findKey_some_mem hk
+      have := hd.unique hA' hm' (b := alo) ⟨Nat.le_refl _, sA.1⟩ ⟨Nat.le_refl _, by simp only; omega⟩
+      have : ahi = bhi := by have := congrArg (fun p : Part => p.2.1) this; simpa using this
+      omega
+  have e1 : assignKey alo bhi m ps = ps ++ [(alo, bhi, m)] := assignKey_absent m hnew
+  have hfA0 : findKey alo ahi ps = some a := hd.findKey_of_mem hA'
+  have hfB0 : findKey blo bhi ps = some b := hd.findKey_of_mem hB'
+  have hfA : findKey alo ahi (ps ++ [(alo, bhi, m)]) = some a := findKey_append_some hfA0
+  have hfB : findKey blo bhi (popKey alo ahi (ps ++ [(alo, bhi, m)])) = some b := by
+    rw [findKey_popKey_ne (by omega)]; exact findKey_append_some hfB0
+  have hfB1 : findKey blo bhi (popKey alo ahi ps) = some b := by
+    rw [findKey_popKey_ne (by omega)]; exact hfB0
+  have hps3 : ps3 = popKey blo bhi (popKey alo ahi (ps ++ [(alo, bhi, m)])) := by
+    show popKey blo bhi (popKey alo ahi (assignKey alo bhi m ps)) = _
+    rw [e1]
+  have hc : ∀ x, cnt x ps3 = cnt x ps := by
+    intro x
+    have h3 := cnt_popKey x (lo := blo) (hi := bhi) (ps := popKey alo ahi (ps ++ [(alo, bhi, m)])) (by rw [hfB]; rfl)
+    have h2 := cnt_popKey x (lo := alo) (hi := ahi) (ps := ps ++ [(alo, bhi, m)]) (by rw [hfA]; rfl)
+    have h1 : cnt x (ps ++ [(alo, bhi, m)]) = cnt x ps + ind alo bhi x := by rw [cnt_append, cnt_single]
+    rw [← hps3] at h3
+    unfold ind at *
+    split_ifs at * <;> omega
+  have hmem : ∀ p ∈ ps3, p ∈ ps ∨ p = (alo, bhi, m) := by
+    intro p hp
+    rw [hps3] at hp
+    have := mem_popKey (mem_popKey hp)
+    rcases List.mem_append.mp this with h | h
+    · exact Or.inl h
+    · exact Or.inr (by simpa using h)
+  have hlen : ps3.length + 1 = ps.length := by
+    rw [hps3]
+    have l1 : ∀ (lo hi : Nat) (qs : List Part), (findKey lo hi qs).isSome → (popKey lo hi qs).length + 1 = qs.length := by
+      intro lo hi qs
+      induction qs with
+      | nil => intro h; simp [findKey] at h
+      | cons q tl ih =>
+        obtain ⟨x, y, e⟩ := q
+        intro h
+        simp only [findKey] at h
+        simp only [popKey]
+        split
+        · rfl
+        · rename_i hk
+          simp only [hk] at h
+          simp only [List.length_cons]
+          have := ih h
+          omega
+    have a1 := l1 blo bhi _ (by rw [hfB]; rfl)
+    have a2 := l1 alo ahi (ps ++ [(alo, bhi, m)]) (by rw [hfA]; rfl)
+    simp only [List.length_append, List.length_cons, List.length_nil] at a2
+    omega
+  refine ⟨⟨?_, fun x => ?_⟩, ?_, hc, hmem, hlen, hA', hB', hadj, sA.1, sB.1, e1, hfA, hfB, hfA0, hfB1⟩
+  · intro p hp
+    rcases hmem p hp with h | rfl
+    · exact hd.1 p h
+    · exact ⟨by simp only; omega, by simp only; omega, hmsz⟩
+  · show cnt x ps3 ≤ 1
+    rw [hc x]; exact hd.cnt_le x
+  · intro p hp
+    rcases hmem p hp with h | rfl
+    · exact hw p h
+    · exact hmwf
+
 theorem restructN_spec (n : Nat) : ∀ (k : Nat) (ps : List Part), Disj n ps → (∀ p ∈ ps, WF p.2.2) →
     Disj n (restructN k ps) ∧ (∀ p ∈ restructN k ps, WF p.2.2) ∧ ∀ b, cnt b (restructN k ps) = cnt b ps := by
   intro k
@@ -705,68 +801,8 @@ theorem restructN_spec (n : Nat) : ∀ (k : Nat) (ps : List Part), Disj n ps →
       obtain ⟨alo, ahi, a⟩ := A
       obtain ⟨blo, bhi, b⟩ := B
       simp only
-      obtain ⟨hA, hB, hadj, hm⟩ := restructFind_spec _ _ _ _ hf
-      simp only at hadj hm
-      have hA' : (alo, ahi, a) ∈ ps := (perm_sortParts ps).subset hA
-      have hB' : (blo, bhi, b) ∈ ps := (perm_sortParts ps).subset hB
-      have sA := hd.1 _ hA'
-      have sB := hd.1 _ hB'
-      simp only at sA sB
-      -- the merged part
-      have hmsz : m.size = bhi - alo := by
-        rcases hm with ⟨x, rfl⟩ | rfl
-        · rw [size_mkCst]; omega
-        · rfl
-      have hmwf : WF m := by
-        rcases hm with ⟨x, rfl⟩ | rfl
-        · exact WF_mkCst _ _ (by omega)
-        · simp only [mkTop, WF]; omega
-      -- key (alo, bhi) is new
-      have hnew : findKey alo bhi ps = none := by
-        cases hk : findKey alo bhi ps with
-        | none => rfl
-        | some e' =>
-          have hm' := findKey_some_mem hk
-          have := hd.unique hA' hm' (b := alo) ⟨Nat.le_refl _, sA.1⟩ ⟨Nat.le_refl _, by simp only; omega⟩
-          have : ahi = bhi := by have := congrArg (fun p : Part => p.2.1) this; simpa using this
-          omega
-      set ps1 := assignKey alo bhi m ps with hps1
-      have e1 : ps1 = ps ++ [(alo, bhi, m)] := assignKey_absent m hnew
-      have hfA : (findKey alo ahi ps1).isSome := by
-        rw [e1, findKey_append_some (hd.findKey_of_mem hA')]; rfl
-      set ps2 := popKey alo ahi ps1 with hps2
-      have hfB : (findKey blo bhi ps2).isSome := by
-        rw [hps2, findKey_popKey_ne (by omega), e1, findKey_append_some (hd.findKey_of_mem hB')]; rfl
-      set ps3 := popKey blo bhi ps2 with hps3
-      have hc : ∀ x, cnt x ps3 = cnt x ps := by
-        intro x
-        have h3 := cnt_popKey x hfB
-        have h2 := cnt_popKey x hfA
-        have h1 : cnt x ps1 = cnt x ps + ind alo bhi x := by rw [e1, cnt_append, cnt_single]
-        rw [← hps3] at h3; rw [← hps2] at h2
-        unfold ind at *
-        split_ifs at * <;> omega
-      have hmem : ∀ p ∈ ps3, p ∈ ps ∨ p = (alo, bhi, m) := by
-        intro p hp
-        have := mem_popKey (mem_popKey hp)
-        rw [e1] at this
-        rcases List.mem_append.mp this with h | h
-        · exact Or.inl h
-        · exact Or.inr (by simpa using h)
-      have hd3 : Disj n ps3 := by
-        refine ⟨?_, fun x => ?_⟩
-        · intro p hp
-          rcases hmem p hp with h | rfl
-          · exact hd.1 p h
-          · exact ⟨by simp only; omega, by simp only; omega, hmsz⟩
-        · show cnt x ps3 ≤ 1
-          rw [hc x]; exact hd.cnt_le x
-      have hw3 : ∀ p ∈ ps3, WF p.2.2 := by
-        intro p hp
-        rcases hmem p hp with h | rfl
-        · exact hw p h
-        · exact hmwf
-      obtain ⟨r1, r2, r3⟩ := ih ps3 hd3 hw3
+      obtain ⟨hd3, hw3, hc, _⟩ := restruct_step n ps alo ahi blo bhi a b m hd hw hf
+      obtain ⟨r1, r2, r3⟩ := ih _ hd3 hw3
       exact ⟨r1, r2, fun x => by rw [r3 x, hc x]⟩
 
 theorem restruct_spec (n : Nat) (ps : List Part) (hd : Disj n ps) (hw : ∀ p ∈ ps, WF p.2.2) :
